@@ -145,7 +145,7 @@ func VerifC06TxManager() {
 		verifAdvanceClock(int64(timeout))
 	case 2: // one nanosecond before the window ends: only meaningful under the virtual clock
 		if !verifInEngine() {
-			return
+			verifAssume(false) // not reproducible with a real clock: the native run stops here
 		}
 		verifAdvanceClock(int64(timeout) - 1)
 	}
